@@ -214,3 +214,135 @@ func TestInvokableCallee(t *testing.T) {
 		}
 	})
 }
+
+// Part "slow-handler": a pool WITHOUT stand-by workers (batch size 1) whose last worker dies from a panicking
+// job while further accepted jobs are queued behind it, the panic handler taking its time (0 - 2 ms), and
+// nobody calling Schedule again: the queued jobs run ("a panicking job ... does not keep later accepted jobs
+// from running", "exactly once provided the pool is left open").
+func TestSlowHandler(t *testing.T) {
+	if vlib.Replaying() {
+		t.Skip()
+	}
+	vlib.Check(t, "slow-handler", 60, 600, func(t *rapid.T) {
+		max := rapid.IntRange(1, 2).Draw(t, "max")
+		behind := rapid.IntRange(1, 3).Draw(t, "behind")
+		handlerUs := rapid.SampledFrom([]int{0, 50, 500, 2000}).Draw(t, "handlerUs")
+		spawnUs := rapid.SampledFrom([]int{20, 100, 1000}).Draw(t, "spawnUs")
+		desc := fmt.Sprintf("max=%d behind=%d handlerUs=%d spawnUs=%d", max, behind, handlerUs, spawnUs)
+		vlib.S().Eval("slow-handler")
+		schedMu.Lock()
+		defer schedMu.Unlock()
+		q := fpgo.NewBufferedChannelQueue[func()](2, 100, 100).SetLoadFromPoolDuration(20 * time.Microsecond)
+		pool := worker.NewDefaultWorkerPool(q, nil).SetWorkerSizeMaximum(max).SetWorkerSizeStandBy(0).SetWorkerBatchSize(1).
+			SetSpawnWorkerDuration(time.Duration(spawnUs) * time.Microsecond).SetWorkerExpiryDuration(time.Hour).SetWorkerJamDuration(time.Hour)
+		defer pool.Close()
+		var handled int32
+		pool.SetPanicHandler(func(interface{}) {
+			time.Sleep(time.Duration(handlerUs) * time.Microsecond)
+			atomic.AddInt32(&handled, 1)
+		})
+		// occupy every worker the pool may have with a gated job; the LAST one to be released panics
+		gate := make(chan struct{})
+		var started, ran int32
+		for i := 0; i < max; i++ {
+			panics := i == 0
+			if err := pool.Schedule(func() {
+				atomic.AddInt32(&started, 1)
+				<-gate
+				if panics {
+					panic("slow-handler")
+				}
+			}); err != nil {
+				close(gate)
+				return
+			}
+		}
+		if !vlib.WaitUntil(vlib.StallBudget(), func() bool { return int(atomic.LoadInt32(&started)) == max }) {
+			close(gate)
+			vlib.S().Class("slow-handler/inconclusive")
+			return
+		}
+		for i := 0; i < behind; i++ {
+			if err := pool.Schedule(func() { atomic.AddInt32(&ran, 1) }); err != nil {
+				close(gate)
+				return
+			}
+		}
+		vlib.S().NonTrivial("slow-handler", desc)
+		close(gate)
+		if vlib.WaitUntil(vlib.StallBudget(), func() bool { return int(atomic.LoadInt32(&ran)) == behind }) {
+			return
+		}
+		verdict, dump := vlib.ClassifyStall([]string{"worker.(*DefaultWorkerPool)"})
+		if vlib.Fail(t, "C09/stranded", "%s: %d jobs were accepted while all workers were busy; one worker then died from a panicking job (handler called %d times): only %d of them ran within %v, nobody schedules any more (pool goroutines: %s)\n%s", desc, behind, atomic.LoadInt32(&handled), atomic.LoadInt32(&ran), vlib.StallBudget(), verdict, dump) {
+			t.Skip("known")
+		}
+	})
+}
+
+// Part "shared-queue": two pools work on ONE job queue. The first one is closed (it does not own the queue:
+// SetIsJobQueueClosedWhenClose(false)); every job the second, open pool accepts afterwards still runs exactly
+// once - whichever goroutine happens to receive it from the shared channel.
+func TestSharedQueue(t *testing.T) {
+	if vlib.Replaying() {
+		t.Skip()
+	}
+	vlib.Check(t, "shared-queue", 60, 600, func(t *rapid.T) {
+		idle := rapid.IntRange(1, 3).Draw(t, "idleWorkersOfClosedPool")
+		jobs := rapid.IntRange(1, 8).Draw(t, "jobs")
+		desc := fmt.Sprintf("idle=%d jobs=%d", idle, jobs)
+		vlib.S().Eval("shared-queue")
+		vlib.S().NonTrivial("shared-queue", desc)
+		schedMu.Lock()
+		defer schedMu.Unlock()
+		q := fpgo.NewBufferedChannelQueue[func()](2, 100, 100).SetLoadFromPoolDuration(20 * time.Microsecond)
+		mk := func(standby int) *worker.DefaultWorkerPool {
+			return worker.NewDefaultWorkerPool(q, nil).SetWorkerSizeMaximum(4).SetWorkerSizeStandBy(standby).SetWorkerBatchSize(1).
+				SetSpawnWorkerDuration(50 * time.Microsecond).SetWorkerExpiryDuration(time.Hour).SetWorkerJamDuration(time.Hour).SetIsJobQueueClosedWhenClose(false)
+		}
+		first, second := mk(idle), mk(1)
+		defer q.Close()
+		defer second.Close()
+		// bring the first pool's stand-by workers up (one job does it), let them go idle on the shared channel
+		warm := make(chan struct{})
+		if err := first.Schedule(func() { close(warm) }); err != nil {
+			return
+		}
+		select {
+		case <-warm:
+		case <-time.After(vlib.StallBudget()):
+			return
+		}
+		time.Sleep(300 * time.Microsecond)
+		first.Close()
+		runs := make([]int32, jobs)
+		for i := 0; i < jobs; i++ {
+			i := i
+			if err := second.Schedule(func() { atomic.AddInt32(&runs[i], 1) }); err != nil {
+				if vlib.Fail(t, "C09/error-value", "%s: the open pool refused job %d: %v", desc, i, err) {
+					t.Skip("known")
+				}
+				return
+			}
+			time.Sleep(20 * time.Microsecond)
+		}
+		all := func() bool {
+			for i := range runs {
+				if atomic.LoadInt32(&runs[i]) < 1 {
+					return false
+				}
+			}
+			return true
+		}
+		ok := vlib.WaitUntil(vlib.StallBudget(), all)
+		time.Sleep(200 * time.Microsecond)
+		for i := range runs {
+			if n := atomic.LoadInt32(&runs[i]); n != 1 {
+				if vlib.Fail(t, "C09/accepted-not-run", "%s: job %d was accepted by the open pool and ran %d times (all ran in time: %v); another pool on the same job queue had been closed before", desc, i, n, ok) {
+					t.Skip("known")
+				}
+				return
+			}
+		}
+	})
+}
